@@ -121,3 +121,13 @@ package http
 //@   forbid call path/filepath.Walk label fs-only-through-root
 //@   forbid call os.OpenFile label fs-only-through-root
 //@   forbid call os.Create label fs-only-through-root
+
+// ---------------------------------------------------------------- what the sender is told about a payload (C08)
+
+// Transmit: the count of received parts comes from the receiver and from nowhere else - all parts
+// only on a 200 answer, the announced count only on a 206 answer, zero on every other failure (the
+// broker then asks the receiver, see handleSendError).
+//@ func (*Client).Transmit
+//@   on return assert failure-count-comes-from-the-receiver: err != nil ==> n == 0 || (called((*BandwidthLoggingClient).Do) && lastret((*BandwidthLoggingClient).Do, 1) == nil && resp.StatusCode == 206 && called(strconv.Atoi) && n == lastret(strconv.Atoi, 0))
+//@   on return assert success-needs-200: err == nil ==> called((*BandwidthLoggingClient).Do) && lastret((*BandwidthLoggingClient).Do, 1) == nil && resp.StatusCode == 200 && called(sts.Payload.GetParts) && n == len(lastret(sts.Payload.GetParts, 0))
+//@   modifies everything
